@@ -7,7 +7,9 @@ Local Open Scope N_scope.
 
 Record case := {
   c_udp : bool; c_off : N; c_in : list buf;
-  c_err : bool; c_tw : list N; c_out : list buf (* the written buffers, in toWrite order *) }.
+  c_err : bool; c_tw : list N; c_out : list buf (* the written buffers, in toWrite order *);
+  c_w : bool (* write-path case: one NativeTun.Write on a device that has seen earlier calls; only the
+                datagrams that reached the fd are observed (c_out), toWrite is not (c_tw = []) *) }.
 
 (* Case files carry bytes as primitive 63-bit integers (7 bytes each). *)
 From WG Require Import Base.Ints.
@@ -16,7 +18,9 @@ Definition mkbuf (cap : Uint63.int) (n : Uint63.int) (data : list Uint63.int) : 
   let l := unpack n data in
   {| b_hdr := take VH l; b_pkt := drop VH l; b_cap := n_of_int cap |}.
 Definition mk (udp : bool) (off : Uint63.int) (inp : list buf) (err : bool) (tw : list Uint63.int) (out : list buf) : case :=
-  {| c_udp := udp; c_off := n_of_int off; c_in := inp; c_err := err; c_tw := ns_of_ints tw; c_out := out |}.
+  {| c_udp := udp; c_off := n_of_int off; c_in := inp; c_err := err; c_tw := ns_of_ints tw; c_out := out; c_w := false |}.
+Definition mkw (udp : bool) (off : Uint63.int) (inp : list buf) (err : bool) (out : list buf) : case :=
+  {| c_udp := udp; c_off := n_of_int off; c_in := inp; c_err := err; c_tw := []; c_out := out; c_w := true |}.
 
 Definition buf_eqb (a b : buf) : bool := list_eqb (b_hdr a) (b_hdr b) && list_eqb (b_pkt a) (b_pkt b).
 
@@ -93,19 +97,50 @@ Definition spec_code (udp : bool) (off : N) (m : state) (inp : list buf) (tw : l
   else if negb (lengths_all_ok tw out) then 52
   else 53.
 
+(* Write path: NativeTun.Write = handleGRO with EMPTY tables on every call, then one write per
+   toWrite entry of (virtio header ++ packet); a failing handleGRO writes nothing.  The judgement of
+   what reached the fd needs no indices: as many segments as inputs, the segments are the inputs
+   (multiset, compared bytes), order within UDP flows, uncoalesced datagrams have a zero header,
+   GSO buffers are well-formed with valid checksums.  Codes as in spec_code (10, 20, 30/36/37/38,
+   40/41/42, 51/52/53, 65). *)
+Definition write_code (m : state) (inp : list buf) (outs : list buf) : N :=
+  let tw := indices (length outs) 0 in
+  let segs := segments tw outs in
+  if existsb (fun b => 65535 <? len (b_pkt b)) (gso_buffers tw outs) then 65
+  else if negb (length segs =? length inp)%nat then 10
+  else if negb (forallb (fun o => is_gso o || (all_zero (b_hdr o) && (len (b_hdr o) =? VH))) outs) then 20
+  else if negb (floweq_ok inp tw outs) then
+    (if floweq_gen true false inp tw outs then 38
+     else if floweq_gen false true inp tw outs then (if has_prepend m then 37 else 36) else 30)
+  else if negb (udp_order_ok inp tw outs) then
+    (if udp_order_gen keep_nonempty inp tw outs then 41
+     else if udp_order_gen keep_eligible inp tw outs then 42 else 40)
+  else if negb (descriptors_ok tw outs) then 51
+  else if negb (lengths_all_ok tw outs) then 52
+  else if negb (checksums_ok tw outs) then 53
+  else 0.
+
 (* kind 1 = implementation differs from the mirror model:
      pos 1 error flag, 2 toWrite, 100+k the k-th written buffer
    kind 2 = the specification fails on the implementation's behaviour: pos = spec_code *)
 Definition check_with (k : case) (m : state) : list (N * N) :=
   let d1 :=
     if negb (Bool.eqb (s_err m) (c_err k)) then [(1, 1)]
+    else if c_w k then
+      (match first_buf_diff (if s_err m then [] else written (s_tw m) (s_bufs m)) (c_out k) 0 with
+       | Some i => [(1, 100 + i)]
+       | None => []
+       end)
     else if negb (list_eqb (s_tw m) (c_tw k)) then [(1, 2)]
     else match first_buf_diff (written (s_tw m) (s_bufs m)) (c_out k) 0 with
          | Some i => [(1, 100 + i)]
          | None => []
          end in
   let d2 :=
-    if c_err k then []
+    if c_w k then
+      (if c_err k then (match c_out k with [] => [] | _ => [(2, 11)] end)     (* a failing Write must write nothing *)
+       else match write_code m (c_in k) (c_out k) with 0 => [] | c => [(2, c)] end)
+    else if c_err k then []
     else match spec_code (c_udp k) (c_off k) m (c_in k) (c_tw k) (place (c_in k) (c_tw k) (c_out k)) with
          | 0 => []
          | c => [(2, c)]
